@@ -1,6 +1,9 @@
 package interpreter
 
-import "github.com/libsv/go-bt/v2/bscript/interpreter/scriptflag"
+import (
+	"github.com/libsv/go-bt/v2/bscript"
+	"github.com/libsv/go-bt/v2/bscript/interpreter/scriptflag"
+)
 
 // State a snapshot of a threads state during execution.
 type State struct {
@@ -128,6 +131,13 @@ func (t *thread) SetState(state *State) {
 	t.scriptIdx = state.ScriptIdx
 	t.scriptOff = state.OpcodeIdx
 	t.lastCodeSep = state.LastCodeSeparatorIdx
+	// a separator at index 0 cannot be told from "no separator" by its index alone: it has been
+	// executed if execution is already past the first instruction of a script that starts with one
+	t.codeSepSeen = state.LastCodeSeparatorIdx > 0
+	if !t.codeSepSeen && t.scriptIdx < len(t.scripts) && t.scriptOff > 0 && len(t.scripts[t.scriptIdx]) > 0 &&
+		t.scripts[t.scriptIdx][0].op.val == bscript.OpCODESEPARATOR {
+		t.codeSepSeen = true
+	}
 	t.numOps = state.NumOps
 	t.flags = state.Flags
 	t.afterGenesis = state.Genesis.AfterGenesis
